@@ -57,6 +57,26 @@ func boundaryDigits(m *big.Int) []uint64 {
 		}
 	}
 
+	// digits q for which a limb of the product q*m (the value added in a reduction round) is zero or all ones:
+	// q*m mod 2^(64(k+1)) inside the lowest resp. highest 2^(64k) - the case in which a carry of the round's
+	// addition chain is raised by its carry-in alone
+	two64 := new(big.Int).Lsh(one, 64)
+
+	for k := uint(1); k <= 3; k++ {
+		n := new(big.Int).Lsh(one, 64*(k+1))
+		w := new(big.Int).Lsh(one, 64*k)
+
+		for _, q := range SolveModRange(m, n, two64, big.NewInt(0), new(big.Int).Sub(w, one), 3) {
+			if q.Sign() > 0 {
+				set[q.Uint64()] = true
+			}
+		}
+
+		for _, q := range SolveModRange(m, n, two64, new(big.Int).Sub(n, w), new(big.Int).Sub(n, one), 3) {
+			set[q.Uint64()] = true
+		}
+	}
+
 	out := make([]uint64, 0, len(set))
 	for v := range set {
 		out = append(out, v)
@@ -184,34 +204,22 @@ func betaRange(base, step, lo, hi *big.Int) (blo, bhi *big.Int, ok bool) {
 	return blo, bhi, blo.Cmp(bhi) <= 0
 }
 
-// subtractWitnesses returns inputs x < m for which the Montgomery multiplication of x by k ends with S >= m, i.e.
-// takes the final subtraction, with result y = S - m in [ylo, yhi]. With M = 2^256 - j (j >= 1) the identity
-// x*k = y*2^256 + j*m must hold, so (y, j) runs over the lattice {y*2^256 + j*m = 0 mod k}; its points inside the
-// box are enumerated from a reduced basis, at most limit of them, spread over the box.
-func subtractWitnesses(m, k, ylo, yhi *big.Int, limit int) []*big.Int {
-	r := ref.Two256()
+// boxPoints enumerates points of the lattice spanned by b1, b2 inside the box [x0lo, x0hi] x [x1lo, x1hi]: the basis
+// is reduced (Lagrange-Gauss), the coefficient of the first reduced vector runs over the range the box corners
+// allow (at most 2^14 equally spaced values of it when the range is longer) and for each the admissible interval of
+// the second coefficient is computed exactly; its two ends and its middle are returned.
+func boxPoints(b1, b2 [2]*big.Int, x0lo, x0hi, x1lo, x1hi *big.Int) [][2]*big.Int {
+	u, v := gauss(b1, b2)
+	det := new(big.Int).Sub(new(big.Int).Mul(u[0], v[1]), new(big.Int).Mul(u[1], v[0]))
 
-	if new(big.Int).GCD(nil, nil, m, k).Cmp(big.NewInt(1)) != 0 {
+	if det.Sign() == 0 {
 		return nil
 	}
 
-	g := new(big.Int).Mul(r, new(big.Int).ModInverse(m, k))
-	g.Neg(g).Mod(g, k)
-	u, v := gauss([2]*big.Int{big.NewInt(1), g}, [2]*big.Int{big.NewInt(0), new(big.Int).Set(k)})
-
-	jlo := big.NewInt(1)
-	jhi := new(big.Int).Sub(k, ylo) // x < m forces y*2^256 + j*m < m*k, hence j < k - y
-	if jhi.Cmp(r) > 0 {
-		jhi = r
-	}
-
-	// alpha range from the corners of the box: alpha = (y*v1 - j*v0) / det
-	det := new(big.Int).Sub(new(big.Int).Mul(u[0], v[1]), new(big.Int).Mul(u[1], v[0]))
-
 	var amin, amax *big.Int
 
-	for _, y := range []*big.Int{ylo, yhi} {
-		for _, j := range []*big.Int{jlo, jhi} {
+	for _, y := range []*big.Int{x0lo, x0hi} {
+		for _, j := range []*big.Int{x1lo, x1hi} {
 			num := new(big.Int).Sub(new(big.Int).Mul(y, v[1]), new(big.Int).Mul(j, v[0]))
 			a := new(big.Int).Quo(num, det)
 
@@ -238,19 +246,15 @@ func subtractWitnesses(m, k, ylo, yhi *big.Int, limit int) []*big.Int {
 		steps = span.Int64() + 1
 	}
 
-	type pt struct{ y, x *big.Int }
-
-	var found []pt
-
-	seen := map[string]bool{}
+	var out [][2]*big.Int
 
 	for i := int64(0); i <= steps; i++ {
 		a := new(big.Int).Add(amin, new(big.Int).Mul(stride, big.NewInt(i)))
 		by := new(big.Int).Mul(a, u[0])
 		bj := new(big.Int).Mul(a, u[1])
 
-		lo1, hi1, ok1 := betaRange(by, v[0], ylo, yhi)
-		lo2, hi2, ok2 := betaRange(bj, v[1], jlo, jhi)
+		lo1, hi1, ok1 := betaRange(by, v[0], x0lo, x0hi)
+		lo2, hi2, ok2 := betaRange(bj, v[1], x1lo, x1hi)
 
 		if !ok1 || !ok2 {
 			continue
@@ -277,24 +281,98 @@ func subtractWitnesses(m, k, ylo, yhi *big.Int, limit int) []*big.Int {
 		mid := new(big.Int).Rsh(new(big.Int).Add(lo, hi), 1)
 
 		for _, b := range []*big.Int{lo, mid, hi} {
-			y := new(big.Int).Add(by, new(big.Int).Mul(b, v[0]))
-			j := new(big.Int).Add(bj, new(big.Int).Mul(b, v[1]))
-
-			num := new(big.Int).Add(new(big.Int).Mul(y, r), new(big.Int).Mul(j, m))
-			x, rem := new(big.Int).DivMod(num, k, new(big.Int))
-
-			if rem.Sign() != 0 || x.Cmp(m) >= 0 || x.Sign() < 0 || seen[x.Text(16)] {
-				continue
-			}
-
-			// confirm on the simulation: the run before the final subtraction is y + m
-			if s, _ := montRun(x, k, m); s.Cmp(new(big.Int).Add(y, m)) != 0 {
-				continue
-			}
-
-			seen[x.Text(16)] = true
-			found = append(found, pt{y, x})
+			out = append(out, [2]*big.Int{
+				new(big.Int).Add(by, new(big.Int).Mul(b, v[0])),
+				new(big.Int).Add(bj, new(big.Int).Mul(b, v[1])),
+			})
 		}
+	}
+
+	return out
+}
+
+// SolveModRange returns up to limit values x in [0, xmax) with lo <= x*b mod n <= hi, spread over the range of
+// x*b mod n: the points (x, x*b mod n) form a lattice of determinant n.
+func SolveModRange(b, n, xmax, lo, hi *big.Int, limit int) []*big.Int {
+	pts := boxPoints([2]*big.Int{big.NewInt(1), ref.Mod(b, n)}, [2]*big.Int{big.NewInt(0), new(big.Int).Set(n)},
+		big.NewInt(0), new(big.Int).Sub(xmax, big.NewInt(1)), lo, hi)
+
+	seen := map[string]bool{}
+
+	var xs []*big.Int
+
+	for _, p := range pts {
+		x := p[0]
+		if x.Sign() < 0 || x.Cmp(xmax) >= 0 || seen[x.Text(16)] {
+			continue
+		}
+
+		y := ref.Mod(new(big.Int).Mul(x, b), n)
+		if y.Cmp(lo) < 0 || y.Cmp(hi) > 0 {
+			continue
+		}
+
+		seen[x.Text(16)] = true
+		xs = append(xs, x)
+	}
+
+	sort.Slice(xs, func(i, j int) bool { return xs[i].Cmp(xs[j]) < 0 })
+
+	if len(xs) <= limit {
+		return xs
+	}
+
+	var out []*big.Int
+	for i := 0; i < limit; i++ {
+		out = append(out, xs[i*(len(xs)-1)/(limit-1)])
+	}
+
+	return out
+}
+
+// subtractWitnesses returns inputs x < m for which the Montgomery multiplication of x by k ends with S >= m, i.e.
+// takes the final subtraction, with result y = S - m in [ylo, yhi]. With M = 2^256 - j (j >= 1) the identity
+// x*k = y*2^256 + j*m must hold, so (y, j) runs over the lattice {y*2^256 + j*m = 0 mod k}; its points inside the
+// box are enumerated from a reduced basis, at most limit of them, spread over the box.
+func subtractWitnesses(m, k, ylo, yhi *big.Int, limit int) []*big.Int {
+	r := ref.Two256()
+
+	if new(big.Int).GCD(nil, nil, m, k).Cmp(big.NewInt(1)) != 0 {
+		return nil
+	}
+
+	g := new(big.Int).Mul(r, new(big.Int).ModInverse(m, k))
+	g.Neg(g).Mod(g, k)
+
+	jlo := big.NewInt(1)
+	jhi := new(big.Int).Sub(k, ylo) // x < m forces y*2^256 + j*m < m*k, hence j < k - y
+	if jhi.Cmp(r) > 0 {
+		jhi = r
+	}
+
+	type pt struct{ y, x *big.Int }
+
+	var found []pt
+
+	seen := map[string]bool{}
+
+	for _, q := range boxPoints([2]*big.Int{big.NewInt(1), g}, [2]*big.Int{big.NewInt(0), new(big.Int).Set(k)}, ylo, yhi, jlo, jhi) {
+		y, j := q[0], q[1]
+
+		num := new(big.Int).Add(new(big.Int).Mul(y, r), new(big.Int).Mul(j, m))
+		x, rem := new(big.Int).DivMod(num, k, new(big.Int))
+
+		if rem.Sign() != 0 || x.Cmp(m) >= 0 || x.Sign() < 0 || seen[x.Text(16)] {
+			continue
+		}
+
+		// confirm on the simulation: the run before the final subtraction is y + m
+		if s, _ := montRun(x, k, m); s.Cmp(new(big.Int).Add(y, m)) != 0 {
+			continue
+		}
+
+		seen[x.Text(16)] = true
+		found = append(found, pt{y, x})
 	}
 
 	sort.Slice(found, func(i, j int) bool { return found[i].y.Cmp(found[j].y) < 0 })
